@@ -97,19 +97,41 @@ pub fn replay(args: &Args) {
                         .encode_to_vec()
                 };
                 let dah = &sq.dah;
-                let got = match catch(|| Sample::decode(id, &bytes).and_then(|s| s.verify(id, dah))) {
+                let wire = match catch(|| Sample::decode(id, &bytes).and_then(|s| s.verify(id, dah))) {
                     Ok(Ok(())) => "accept".to_string(),
                     Ok(Err(_)) => "reject".to_string(),
                     Err(p) => format!("panic: {p}"),
                 };
+                // Second observation point: Sample::verify(id, dah) itself, on a Sample that was NOT decoded under
+                // the target id: the object is assembled from its parts (share parsed as what it is where it was
+                // committed), as a caller holding an in-memory Sample would have it.
+                let direct = {
+                    let raw = RawSample::decode(&bytes[..]).unwrap();
+                    let (osr, osc) = if honest { (r, col) } else { (sc_.rep(sr), sc_.rep(sc)) };
+                    let sbytes = raw.share.as_ref().unwrap().data.clone();
+                    let share = if osr < w / 2 && osc < w / 2 { celestia_types::Share::from_raw(&sbytes) } else { celestia_types::Share::parity(&sbytes) };
+                    let proof = celestia_types::nmt::NamespaceProof::try_from(raw.proof.clone().unwrap());
+                    match (share, proof) {
+                        (Ok(share), Ok(proof)) => {
+                            let s = Sample { proof_type: sax, share, proof };
+                            match catch(|| s.verify(id, dah)) {
+                                Ok(Ok(())) => "accept".to_string(),
+                                Ok(Err(_)) => "reject".to_string(),
+                                Err(p) => format!("panic: {p}"),
+                            }
+                        }
+                        _ => "reject".to_string(), // parts that do not even form a Sample
+                    }
+                };
+                for (path, got) in [("wire", wire), ("direct", direct)] {
                 *by_width.entry(w).or_default() += 1;
-                let key = if demand != "either" { Some(format!("{ci}/{w}/{}", sc_.name)) } else { None };
-                sum.case("C04", key, || json!({"case": c, "width": w, "scale": sc_.name, "got": got}));
+                let key = if demand != "either" { Some(format!("{ci}/{w}/{}/{path}", sc_.name)) } else { None };
+                sum.case("C04", key, || json!({"case": c, "width": w, "scale": sc_.name, "path": path, "got": got}));
                 let bad = got.starts_with("panic") || (demand != "either" && got != demand);
                 if bad {
                     let same_line = pax == sax && sc_.rep(pline) == if sax as i32 == 0 { r } else { col };
                     let gotk = if got.starts_with("panic") { crate::sq::panic_kind(&got) } else { got.clone() };
-                    let class = json!({"kind": "sample", "cls": cls, "demand": demand, "got": gotk,
+                    let class = json!({"kind": "sample", "path": path, "cls": cls, "demand": demand, "got": gotk,
                                       "proof_of_requested_line": same_line, "share_is_requested": skind == "cell" && sr == ir && sc == ic,
                                       "altered": start != ppos || len != 1 || sm != "none",
                                       "quadrant": format!("{}{}", if ir < wabs / 2 {"d"} else {"p"}, if ic < wabs / 2 {"d"} else {"p"})});
@@ -118,14 +140,15 @@ pub fn replay(args: &Args) {
                     viols.push((
                         ck,
                         json!({
-                            "why": format!("id ({r},{col}) width {w}: share {skind}({},{}) proof {:?} line {} pos {} start {} len {len} sm {sm} claimed {:?}: demanded {demand}, code says {got}",
+                            "why": format!("[{path}] id ({r},{col}) width {w}: share {skind}({},{}) proof {:?} line {} pos {} start {} len {len} sm {sm} claimed {:?}: demanded {demand}, code says {got}",
                                 sc_.rep(sr), sc_.rep(sc), pax, sc_.rep(pline), sc_.rep(ppos), sc_.rep(start), sax),
                             "class": class,
                             "case": c, "width": w, "scale": sc_.name, "got": got,
                         }),
                     ));
-                } else if w == wabs && sq.distinct && got != predict {
+                } else if path == "wire" && w == wabs && sq.distinct && got != predict {
                     sum.drift("C04", json!({"case": c, "width": w, "got": got, "predict": predict}));
+                }
                 }
             }
         }
